@@ -1,3 +1,5 @@
+import json
+
 from circuits import Component, handler
 from circuits.core import Value
 from circuits.net.events import write
@@ -25,12 +27,14 @@ class Protocol(Component):
 
         packets = self.__buffer.split(DELIMITER)
         self.__buffer = b''
+        last = len(packets) - 1
 
-        for packet in packets:
+        for i, packet in enumerate(packets):
             try:
                 self.__process_packet(packet)
             except ValueError:
-                self.__buffer = packet
+                if i == last:  # no delimiter yet: incomplete packet, wait for the rest
+                    self.__buffer = packet
 
     @handler(channel='node_result', priority=100)
     def result_handler(self, event, *args, **kwargs):
@@ -73,6 +77,7 @@ class Protocol(Component):
 
     def __process_packet(self, packet):
         packet = packet.decode('utf-8')
+        json.loads(packet)  # incomplete or malformed: ValueError, handled by add_buffer
 
         # FIXME: the encoding of values is hardcoded to UTF-8.
         # at least protect against DoS attempts causing UnicodeDecodeError
